@@ -155,8 +155,5 @@ def run(ctx):
     nf = ctx.pick(5, 6)
     ctx.run_parallel('shard_skeletons', extra=(nf, 0))
     ctx.exhaustive('every group-free skeleton with exactly %d elements' % nf)
-    if ctx.thorough:
-        ctx.run_parallel('shard_skeletons', extra=(5, 1))
-        ctx.exhaustive('every skeleton with exactly 5 elements, groups nested ≤ 1')
-    ctx.run_parallel('shard_random', extra=(ctx.pick(250, 10000), False))
-    ctx.run_parallel('shard_random', extra=(ctx.pick(60, 2500), True))
+    ctx.run_parallel('shard_random', extra=(ctx.pick(250, 4000), False))
+    ctx.run_parallel('shard_random', extra=(ctx.pick(60, 800), True))
